@@ -84,6 +84,7 @@ type ClientScenario struct {
 	Raw        bool  // DHCPv4 only: the client runs on nclient4.NewBroadcastUDPConn(<scripted conn>), the production stack (datagrams are IPv4/UDP frames)
 	Twin       bool  // a second client on its own connection has a call in flight with the SAME transaction id as call 0 and gets its own reply (serial 99): clients share nothing
 	Decoy      bool  // a second client with a different configuration is constructed (and closed) after the one under test
+	Defaults   bool  // DHCPv4: no WithTimeout / WithRetry - nclient4.DefaultTimeout and nclient4.DefaultRetries apply
 	HWOpt      bool  // DHCPv4: the client is constructed for another hardware address and told its own through WithHWAddr; DHCPv6: constructed on another connection and given its own through WithConn
 	LogKind    int   // with Log: 0 the debug logger, 1 the summary logger, 2 a caller-supplied logger that prints every message (DHCPv4; DHCPv6 has none: summary)
 	Log        bool  // the client is configured with its debug logger (output discarded) and, for DHCPv6, with WithLogDroppedPackets
@@ -107,6 +108,9 @@ func (s *ClientScenario) String() string {
 	}
 	if s.Log {
 		b.WriteString("(" + [...]string{"debug", "summary", "caller-supplied"}[s.LogKind] + " logger, dropped packets logged) ")
+	}
+	if s.Defaults {
+		b.WriteString("(timeout and retry count left at the exported defaults) ")
 	}
 	if s.HWOpt {
 		b.WriteString("(hardware address given by WithHWAddr / connection given by WithConn) ")
@@ -374,6 +378,10 @@ func (s *ClientScenario) body(out **clientRun) func() {
 		var twin func()
 		if !s.V6 {
 			opts4 := []nclient4.ClientOpt{nclient4.WithTimeout(T), nclient4.WithRetry(s.Tries), nclient4.WithServerAddr(serverAddr)}
+			if s.Defaults {
+				// neither timeout nor retry count configured: the exported defaults apply (the scenario's T and Tries are set from them)
+				opts4 = opts4[2:]
+			}
 			if s.Log {
 				switch s.LogKind {
 				case 1:
@@ -659,11 +667,15 @@ func (s *ClientScenario) body(out **clientRun) func() {
 			})
 		}
 		wg.Wait()
-		if s.CloseAt < 0 {
-			h.add(Event{Kind: EvCloseCall, Note: "final"})
-			closeFn()
-			h.add(Event{Kind: EvCloseRet, Note: "final"})
+		// the client is closed at the end of every execution; where a Close already happened this is the second one,
+		// which must return quietly (Close guards against closing twice)
+		note := "final"
+		if s.CloseAt >= 0 {
+			note = "second"
 		}
+		h.add(Event{Kind: EvCloseCall, Note: note})
+		closeFn()
+		h.add(Event{Kind: EvCloseRet, Note: note})
 	}
 }
 
